@@ -357,3 +357,99 @@ Arguments SNoConv {A}.
 Arguments sd_m {K}. Arguments sd_s {K}. Arguments sd_sk {K}.
 Arguments vp_type {K}. Arguments vp_rows {K}. Arguments vp_cols {K}. Arguments vp_unknowns {K}.
 Arguments vp_stds {K}. Arguments vp_systems {K}. Arguments vp_noise {K}.
+
+(* ---- additions of the second round (no proofs) ---- *)
+(* the element of the stored noise model a solve at frequency index findex reads *)
+Definition noise_at (ms : option (list (Qc * Qc))) (findex : nat) : option (Qc * Qc) :=
+  option_map (fun v => nth findex v (0%Qc, 0%Qc)) ms.
+
+Definition sres_map {A B} (f : A -> B) (r : sres A) : sres B :=
+  match r with
+  | SOk a => SOk (f a)
+  | SInsufficient => SInsufficient | SSingular => SSingular
+  | SVSingular => SVSingular | SNoConv => SNoConv
+  end.
+
+Section Each.
+Variable K : CField.
+Variable N : K -> Qc.
+Variable rsqrt : Qc -> Qc.
+Variable ofq : Qc -> K.
+Variable minv : nat -> list K -> option (list K).
+Variables solve_sq solve_ls : nat -> list (list K) -> list K -> option (list K).
+(* every frequency solved on the SAME solve state st (nothing threaded): the reference
+   solve_frequencies is compared with in v_reinit_per_frequency *)
+Fixpoint solve_each (tol : Qc) (limit : nat) (xinit : list K) (st : vstate K) (ps : list (vprob K))
+  : list (list K * list nat) * option (sres unit) :=
+  match ps with
+  | [] => ([], None)
+  | p :: r =>
+      match solve_frequency K N rsqrt ofq minv solve_sq solve_ls tol limit xinit st p with
+      | SOk (x, _, ns) => let rr := solve_each tol limit xinit st r in ((x, ns) :: fst rr, snd rr)
+      | SInsufficient => ([], Some SInsufficient) | SSingular => ([], Some SSingular)
+      | SVSingular => ([], Some SVSingular) | SNoConv => ([], Some SNoConv)
+      end
+  end.
+(* the shape of a solve state: which pointers are NULL *)
+Definition shape_vv (vv : vvec K) : option (list bool) :=
+  option_map (map (fun o : option (list K) => match o with Some _ => true | None => false end)) vv.
+Definition shape (st : vstate K) : list (option (list bool)) := map shape_vv st.
+End Each.
+
+(* ---- vnacal_new_build_equation_terms.c: build_terms_t8 and build_terms_u8 as coded ----
+   conn c = vnm_connectivity_matrix[c], szero c = (vnm_s_matrix[c] == vn_zero); cells are indices
+   into the n x n S / V matrices (n = m_columns for T, m_rows for U) and the m_rows x m_columns M
+   matrix.  The result is vne_term_list in the order of the add_term calls. *)
+Definition mk_term (neg : bool) (m s : option nat) (v : nat) (x : option nat) : vterm :=
+  {| vt_neg := neg; vt_m := m; vt_s := s; vt_v := v; vt_x := x |}.
+
+Definition build_terms_t8 (rows cols eq_row eq_col : nat) (conn szero : nat -> bool) : list vterm :=
+  (* -Ts S V *)
+  flat_map (fun v_row =>
+      let s_cell := eq_row * cols + v_row in let v_cell := v_row * cols + eq_col in
+      if conn v_cell && negb (szero s_cell)
+      then [mk_term true None (Some s_cell) v_cell (Some eq_row)] else []) (seq 0 cols)
+  (* -Ti V *)
+  ++ (let v_cell := eq_row * cols + eq_col in
+      if conn v_cell then [mk_term true None None v_cell (Some (rows + eq_row))] else [])
+  (* M Tx S V *)
+  ++ flat_map (fun tx_d =>
+      let m_cell := eq_row * cols + tx_d in
+      flat_map (fun v_row =>
+          let s_cell := tx_d * cols + v_row in let v_cell := v_row * cols + eq_col in
+          if conn v_cell && negb (szero s_cell)
+          then [mk_term false (Some m_cell) (Some s_cell) v_cell (Some (rows + rows + tx_d))] else [])
+        (seq 0 cols)) (seq 0 cols)
+  (* M Tm V, tm11 = 1 on the right-hand side *)
+  ++ flat_map (fun tm_d =>
+      let m_cell := eq_row * cols + tm_d in let v_cell := tm_d * cols + eq_col in
+      if conn v_cell
+      then [if Nat.eqb tm_d 0 then mk_term true (Some m_cell) None v_cell None
+            else mk_term false (Some m_cell) None v_cell (Some (rows + rows + cols + tm_d - 1))]
+      else []) (seq 0 cols).
+
+Definition build_terms_u8 (rows cols eq_row eq_col : nat) (conn szero : nat -> bool) : list vterm :=
+  (* V Um M, um11 = 1 on the right-hand side *)
+  flat_map (fun um_d =>
+      let v_cell := eq_row * rows + um_d in let m_cell := um_d * cols + eq_col in
+      if conn v_cell
+      then [if Nat.eqb um_d 0 then mk_term true (Some m_cell) None v_cell None
+            else mk_term false (Some m_cell) None v_cell (Some (um_d - 1))]
+      else []) (seq 0 rows)
+  (* V Ui *)
+  ++ (let v_cell := eq_row * rows + eq_col in
+      if conn v_cell then [mk_term false None None v_cell (Some (rows - 1 + eq_col))] else [])
+  (* -V S Ux M *)
+  ++ flat_map (fun ux_d =>
+      let m_cell := ux_d * cols + eq_col in
+      flat_map (fun v_column =>
+          let v_cell := eq_row * rows + v_column in let s_cell := v_column * rows + ux_d in
+          if conn v_cell && negb (szero s_cell)
+          then [mk_term true (Some m_cell) (Some s_cell) v_cell (Some (rows - 1 + cols + ux_d))] else [])
+        (seq 0 rows)) (seq 0 rows)
+  (* -V S Us *)
+  ++ flat_map (fun v_column =>
+      let v_cell := eq_row * rows + v_column in let s_cell := v_column * rows + eq_col in
+      if conn v_cell && negb (szero s_cell)
+      then [mk_term true None (Some s_cell) v_cell (Some (rows - 1 + cols + rows + eq_col))] else [])
+    (seq 0 rows).
